@@ -1354,3 +1354,7 @@ mod tests {
         assert_eq!(addr.to_string(), "1234567890.example.com:123");
     }
 }
+
+#[cfg(feature = "pendulum_project_ntpd_rs_verif")]
+#[path = "/verif/hooks/ntpd/daemon_config_ntp_source.rs"]
+pub mod vh_daemon_config_ntp_source;
